@@ -9,7 +9,7 @@ import torch
 
 from vlib import policies
 from vlib.sweep import sig_of
-from vlib.taps import PolicyTap
+from vlib.taps import PolicyTap, logit_noise
 
 
 @contextlib.contextmanager
@@ -77,12 +77,23 @@ def decode(pol, env, td_in, tap=False):
                     return out_
 
                 pol.decoder._get_logprobs = wrapped
+            rc = getattr(pol.decoder, "recurrence", None)  # PointerNetwork: own decode loop inside decoder.forward
+            if rc is not None:
+                def wrapped_rc(*a, **kw):
+                    out_ = rc(*a, **kw)
+                    lp = out_[1]
+                    extra.append(dict(logits=lp.detach().reshape(lp.shape[0], -1).clone(), mask=None, done=None))
+                    return out_
+
+                pol.decoder.recurrence = wrapped_rc
             try:
                 with PolicyTap(pol) as rec:
                     out = pol(td, env, phase="test", return_actions=True, **DECODE_KW)
             finally:
                 if gl is not None:
                     pol.decoder._get_logprobs = gl
+                if rc is not None:
+                    pol.decoder.recurrence = rc
             rec.steps += extra
             return out, rec
         return pol(td, env, phase="test", return_actions=True, **DECODE_KW), None
@@ -137,7 +148,7 @@ def case(ctx, case):
             ctx.count("c14_solo_decodes")
             if rec.hits["decoder"] == 0:
                 ctx.count("c14_tap_missed")
-            refs.append(dict(a=out["actions"][0].clone(), r=out["reward"][0].reshape(-1).clone(), ll=out["log_likelihood"][0].reshape(-1).clone(), margin=min_margin(rec) if rec.steps else float("inf")))
+            refs.append(dict(a=out["actions"][0].clone(), r=out["reward"][0].reshape(-1).clone(), ll=out["log_likelihood"][0].reshape(-1).clone(), margin=min_margin(rec) if rec.steps else float("inf"), noise=(logit_noise(rec) * max(1, len(rec.steps))) if rec.steps else 0.0))
         good = [b for b in range(m) if refs[b] is not None]
         if not good:
             return
@@ -153,7 +164,7 @@ def case(ctx, case):
             r = out["reward"][pos].reshape(-1)  # [1] or [paths] (MDAM returns one reward per decoder path)
             ll = out["log_likelihood"][pos].reshape(-1)
             if not same:
-                if ref["margin"] < 1e-5:
+                if ref["margin"] < 1e-5 + ref["noise"]:
                     ctx.ambiguous += 1  # near-tie in the solo decode: a flip under float noise is allowed by the property
                     return
                 ctx.violation(dict(sig, q="actions", context=context), f"[{context}] greedy actions of the instance at position {pos} of a batch of {B} differ from its solo decode (solo top-2 margin {ref['margin']:.3g})",
@@ -165,7 +176,7 @@ def case(ctx, case):
                     return
                 ctx.violation(dict(sig, q="reward", context=context), f"[{context}] reward {r.tolist()} != solo {ref['r'].tolist()} with identical actions", dict(B=B, pos=pos))
                 return
-            if ll.shape != ref["ll"].shape or bool(((ll - ref["ll"]).abs() > 1e-4 * ref["ll"].abs().clamp(min=1.0)).any()):
+            if ll.shape != ref["ll"].shape or bool(((ll - ref["ll"]).abs() > 1e-4 * ref["ll"].abs().clamp(min=1.0) + ref["noise"]).any()):
                 if ref["margin"] < 1e-5:
                     ctx.ambiguous += 1
                     return
